@@ -316,6 +316,8 @@ struct FnState {
     lets: Vec<LetInfo>,
     /// R32: the tail expression is `X.map(|x| E)` and the function returns Result / Option: (span, returns Result)
     tail_map: Option<(usize, usize, bool)>,
+    /// R33: the body ends in `while let P = E { B }` (no break, no label) followed by the tail expression T: (start of the while, span of T)
+    tail_while: Option<(usize, usize, usize)>,
 }
 
 #[derive(Clone)]
@@ -574,9 +576,29 @@ impl<'p> Ctx<'p> {
                 _ => None,
             }
         };
+        let tail_while = {
+            fn has_break(ts: proc_macro2::TokenStream) -> bool {
+                ts.into_iter().any(|t| match t {
+                    proc_macro2::TokenTree::Ident(i) => i == "break" || i == "continue",
+                    proc_macro2::TokenTree::Group(g) => has_break(g.stream()),
+                    _ => false,
+                })
+            }
+            match block.map(|b| b.stmts.as_slice()) {
+                Some([.., syn::Stmt::Expr(syn::Expr::While(w), _), syn::Stmt::Expr(t, None)])
+                    if matches!(&*w.cond, syn::Expr::Let(_)) && w.label.is_none() && !has_break(quote::ToTokens::to_token_stream(&w.body))
+                        && !matches!(sig.output, syn::ReturnType::Default) =>
+                {
+                    let (ts, te) = br(t.span());
+                    Some((br(w.span()).0, ts, te))
+                }
+                _ => None,
+            }
+        };
         self.fn_stack.push(FnState {
             lets,
             tail_map,
+            tail_while,
             body_start: block.map(|b| br(b.span()).0),
             strlits: Vec::new(),
             rename_self: mut_self,
@@ -1074,6 +1096,16 @@ impl<'ast, 'p> Visit<'ast> for Ctx<'p> {
     }
 
     fn visit_expr_while(&mut self, w: &'ast syn::ExprWhile) {
+        // a trailing `while let P = E { B }` followed by the tail expression T of a contracted function with loop invariants: after the loop
+        // Verus knows the invariants only, not that the pattern stopped matching, so postconditions that need that fact cannot be proved
+        // whatever the code does (the equivalent `loop { if let .. else { break T } }` keeps it). Unsupported construct: undecided, not a verdict.
+        let hit = self.fn_stack.last().and_then(|f| f.tail_while).filter(|t| t.0 == br(w.span()).0);
+        let has_inv = self.fn_stack.last().map(|f| !f.external && f.contract.as_ref().map(|c| !c.loops.is_empty()).unwrap_or(false)).unwrap_or(false);
+        if hit.is_some() && has_inv && self.in_verified_fn() {
+            let ln = self.line_of(br(w.span()).0);
+            let key = self.cur_fn();
+            self.out.errors.push(format!("unsupported construct: {} ends in a `while let` loop (line {}) followed by a tail expression; the loop invariants of its contract were written for a `loop` with `break`", key, ln));
+        }
         self.loop_anchor(&w.body);
         visit::visit_expr_while(self, w);
     }
